@@ -6,7 +6,7 @@
 wt="$1"; prop="$2"; n="$3"; shift 3
 out=/verif/seeded/$prop-$n; mkdir -p "$out"
 cd "$wt" || exit 2
-git diff --quiet && git apply DELIVERY/patch.diff
+git checkout -- . ; git apply DELIVERY/patch.diff
 names=""
 for f in "$@"; do cp "DELIVERY/$f" quiver-tests/tests/ && names="$names $(basename "$f" .rs)"; done
 echo "== suite WITH the change (demo excluded)"
@@ -14,7 +14,7 @@ filter=""; for t in $names; do filter="$filter and not binary(=$t)"; done
 cargo nextest run --workspace --no-fail-fast --offline --test-threads 6 -E "all()$filter" 2>&1 | tail -3 | tee "$out/suite_with_change.txt"
 echo "== demo WITH the change (expected: fails)"
 for t in $names; do cargo nextest run --offline -p quiver-tests --test "$t" 2>&1 | tail -4; done | tee "$out/demo_with_change.txt"
-git stash -q -- $(git diff --name-only) 2>/dev/null || git checkout -- $(git diff --name-only)
+git checkout -- $(git diff --name-only)
 echo "== demo WITHOUT the change (expected: passes)"
 for t in $names; do cargo nextest run --offline -p quiver-tests --test "$t" 2>&1 | tail -4; done | tee "$out/demo_without_change.txt"
 cp DELIVERY/patch.diff DELIVERY/*.md "$out"/ 2>/dev/null
